@@ -22,6 +22,9 @@ if ! git -C "$WT" apply "$D/patch.diff" 2>"$OUT/apply.log"; then echo "SUMMARY $
 (cd "$WT" && go build ./... && go test -vet=off -count=1 ./... >"$OUT/suite.log" 2>&1); sc=$?
 cp "$demo" "$WT/$pd/zz_demo_test.go"
 (cd "$WT" && go test -vet=off -count=1 -run "^($tests)\$" ./$pd/ >"$OUT/demo_mut.log" 2>&1); dm=$?
+if [ $dm = 0 ]; then # some demonstrations only fail under the race detector
+  (cd "$WT" && go test -race -vet=off -count=1 -run "^($tests)\$" ./$pd/ >"$OUT/demo_mut_race.log" 2>&1); dm=$?
+fi
 rm "$WT/$pd/zz_demo_test.go"
 res=""
 for id in "$@"; do
